@@ -17,21 +17,34 @@ def _worker(job):
     from amaranth.hdl import Signal, Module, signed, unsigned
     from amaranth.sim import Simulator
     from . import stmt_replay
-    path, lo, hi = job
+    path, lo, hi, storage = job
     cases = [st["c"] for st in expr_replay.iter_states_range(path, lo, hi)]
     out = {"n": len(cases), "mism": [], "fps": [], "sample": None}
     if not cases:
         return out
     inp = stmt_replay.Inputs()
-    sigs = {i: Signal(stmt_replay.SIG_SHAPES[i], name="s%d" % i) for i in (1, 2, 3)}
     m = Module()
     dummy = Signal()
-    m.d.comb += dummy.eq(inp.a[0] ^ sigs[1][0])
+    if storage == "signal":
+        sigs = {i: Signal(stmt_replay.SIG_SHAPES[i], name="s%d" % i) for i in (1, 2, 3)}
+        m.d.comb += dummy.eq(inp.a[0] ^ sigs[1][0])
+    else:
+        # the same three storage elements as rows of simulated memories (row 1 of a 2-row memory each); rows are
+        # assignable values for a testbench exactly like signals
+        from amaranth.lib.memory import Memory
+        sigs = {}
+        for i in (1, 2, 3):
+            mem = Memory(shape=stmt_replay.SIG_SHAPES[i], depth=2, init=[])
+            m.submodules["mem%d" % i] = mem
+            rp = mem.read_port(domain="comb")
+            m.d.comb += rp.addr.eq(inp.a[0])
+            sigs[i] = mem.data[1]
+        m.d.comb += dummy.eq(inp.a[0])
     sim = Simulator(m)
 
     async def tb(ctx):
         for c in cases:
-            r = "%s := %d  (a=%d, before=%s)" % (stmt_replay.render_target(c["t"]), c["v"], c["a"], list(c["st"]))
+            r = "%s%s := %d  (a=%d, before=%s)" % ("" if storage == "signal" else "[memory rows] ", stmt_replay.render_target(c["t"]), c["v"], c["a"], list(c["st"]))
             out["fps"].append(hash(r))
             for i in (1, 2, 3):
                 ctx.set(sigs[i], c["st"][i - 1])
@@ -46,7 +59,7 @@ def _worker(job):
             if out["sample"] is None and c["t"]["k"] not in ("sig",):
                 out["sample"] = {"write": r, "after": exp}
             if got != exp and len(out["mism"]) < 100:
-                out["mism"].append({"write": r, "target_kind": c["t"]["k"], "expected": exp, "actual": got})
+                out["mism"].append({"write": r, "storage": storage, "target_kind": c["t"]["k"], "expected": exp, "actual": got})
 
     sim.add_testbench(tb)
     sim.run()
@@ -57,16 +70,16 @@ def run_stage(ctx, prop, sides=("tbset",)):
     dump = os.path.join(ctx.tmp, "lhscases")
     r = ctx.tlc("MC_AmLhsCases", stage="mc/lhs-cases", cfg_text=CFG, workers=16, args=("-dump", dump))
     path = dump + ".dump"
-    res = pmap(_worker, [(path, lo, hi) for lo, hi in expr_replay.split_dump(path, 32)])
+    res = pmap(_worker, [(path, lo, hi, storage) for storage in ("signal", "memory") for lo, hi in expr_replay.split_dump(path, 32)])
     os.unlink(path)
     n = sum(x["n"] for x in res)
-    if n != r.distinct:
+    if n != 2 * r.distinct:
         raise MachineryError("lhs cases: replayed %d, TLC enumerated %d" % (n, r.distinct))
     for x in res:
         for fp in x["fps"]:
             ctx.case(fp)
         for m in x["mism"]:
-            key = {"side": "tbset", "target_kind": m["target_kind"], "write": m["write"]}
+            key = {"side": "tbset", "storage": m["storage"], "target_kind": m["target_kind"], "write": m["write"]}
             if isinstance(m["actual"], str):
                 key["error"] = m["actual"].split(":")[0]
             ctx.violation(key, "ctx.set: %s: signals (s1, s2, s3) afterwards %r, AmLhs says %r" % (m["write"], m["actual"], m["expected"]), replay=m)
